@@ -1397,7 +1397,7 @@ theorem ramp_bounded' (s : Solid K) (hs : Bounded s) (h3 : s.d3 = true) (p1 p2 c
         have e2 : (psub p2 p1) 2 = 0 := by
           rw [hnn] at h; nlinarith [mul_self_nonneg ((psub p2 p1) 0), mul_self_nonneg ((psub p2 p1) 1), mul_self_nonneg ((psub p2 p1) 2)]
         apply hne
-        simp only [pdot, e0, e1, e2]; ring
+        rw [hsc]; simp only [pdot, e0, e1, e2]; ring
     set t := sc / nn with ht
     have ht0 : 0 < t := div_pos hsc0 hnn0
     have ht1 : t < 1 := not_le.mp h2
